@@ -455,7 +455,10 @@ impl<'a> Ord for BorrowedTerm<'a> {
                     .then_with(|| a.index.cmp(&b.index))
                     .then_with(|| a.uniq.cmp(&b.uniq))
                     .then_with(|| a.pid.cmp(&b.pid))
-                    .then_with(|| compare_owned_term_lists(&a.free_vars, &b.free_vars)),
+                    .then_with(|| compare_owned_term_lists(&a.free_vars, &b.free_vars))
+                    // funs that differ at all are distinct terms (and distinct map keys)
+                    .then_with(|| a.arity.cmp(&b.arity))
+                    .then_with(|| a.num_free.cmp(&b.num_free)),
                 (BorrowedTerm::ExternalFun(_), BorrowedTerm::InternalFun(_)) => Ordering::Less,
                 (BorrowedTerm::InternalFun(_), BorrowedTerm::ExternalFun(_)) => Ordering::Greater,
                 (BorrowedTerm::Port(a), BorrowedTerm::Port(b)) => a
